@@ -238,6 +238,65 @@ def replay(ctx, h, m, expect_rule):
     return src, expect_rule in failed, {'real_entry': d, 'failed_rules': failed}
 
 
+OOO_SRC = '''@group(0) @binding(5) var<uniform> late: vec4<f32>;
+@group(0) @binding(0) var<uniform> early: vec4<f32>;
+@group(0) @binding(3) var tex: texture_2d<f32>;
+@group(1) @binding(2) var<storage, read> b2: array<f32, 4>;
+@group(1) @binding(1) var<uniform> b1: vec4<f32>;
+@vertex fn vs() -> @builtin(position) vec4<f32> { return late + b1; }
+@fragment fn fs() -> @location(0) vec4<f32> { return early * b2[0] + textureLoad(tex, vec2<i32>(0, 0), 0); }
+@compute @workgroup_size(1) fn cs() { let x = b2[1]; }
+'''
+OOO_WANT = {('0', 5): 1, ('0', 0): 2, ('0', 3): 2, ('1', 2): 6, ('1', 1): 1}        # (group, @binding) -> stages using the variable declared there
+
+
+def declared_out_of_order(ctx, seen):
+    """bindings declared out of ascending @binding order and used by different stages: every layout entry carries the visibility of ITS
+    variable (concrete shader through the interpreter and through the real build; both must give the static-use stage sets)"""
+    S = ctx.S
+    module = S.module(OOO_SRC)
+    env = env_passthrough(module, OOO_SRC)
+    res = ctx.explore('create_shader_module_inner/bindings-declared-out-of-order',
+                      lambda it: it.call('create_shader_module_inner', [OOO_SRC, none(), write_options(S.conv)]), env=env, anchors=['bind_group_layout_entry'])
+    for pc, kind, out, _ in res:
+        ctx.queries['discharged'] += 1
+        vis = visibility_by_slot(out.fields[0].toks) if kind == 'ok' and out.disc == 0 else None
+        real = real_visibility_plain(ctx, OOO_SRC)
+        if vis == OOO_WANT and real == OOO_WANT:
+            ctx.queries['unsat'] += 1
+            ctx.replayed_ok += 1
+            continue
+        ctx.queries['sat'] += 1
+        if 'C02/out-of-order' not in seen:
+            seen['C02/out-of-order'] = 1
+            ctx.report('C02/visibility of bindings declared out of index order', f'layout entries carry {real} (interpreter: {vis}), static use is {OOO_WANT}',
+                       {'wgsl': OOO_SRC}, real != OOO_WANT, {'real': {str(k): v for k, v in (real or {}).items()}, 'expected': {str(k): v for k, v in OOO_WANT.items()}})
+
+
+def visibility_by_slot(toks):
+    """{(group, binding index): visibility} read off the LAYOUT_DESCRIPTORn constants - by the entry's own binding number, so that the order
+    of the entries inside a descriptor does not matter"""
+    out = {}
+    mod = T.find_items(T.items(toks), 'mod', 'bind_groups')
+    for cst in T.find_items(T.items(T.body_of(mod[0])), 'const') if mod else []:
+        if not cst.name.startswith('LAYOUT_DESCRIPTOR'):
+            continue
+        _, val = T.const_parts(cst)
+        body = next(t for t in val if T.is_g(t, '{}'))
+        f = dict((nm, v) for nm, _, v in T.struct_fields(body.v[1]))
+        arr = next(t for t in f['entries'] if T.is_g(t, '[]'))
+        for e in T.split_commas(arr.v[1]):
+            d = decode_bgl_entry(e)
+            k = (cst.name[len('LAYOUT_DESCRIPTOR'):], d['binding'])
+            out[k] = d['visibility'] if k not in out else 'duplicate'
+    return out
+
+
+def real_visibility_plain(ctx, src):
+    kind, toks, _ = ctx.gen_tokens(src, {})
+    return visibility_by_slot(toks) if kind == 'ok' else None
+
+
 def run(ctx):
     h = Holes(ctx)
     ctx.bounds = {'skeleton': 'one binding per run (entries are generated independently; the list builder is C04); plus 3 variables with symbolic (@group, @binding) pairs for slot uniqueness',
@@ -252,100 +311,105 @@ def run(ctx):
         'existence at @group/@binding is decided by C04/C11, stage visibility exactness by C03; here visibility must equal the supplied stage set',
     ]
 
-    def mk(stage_term):
-        def go(it):
-            gb = h.value(ctx)
-            stages = BTreeV()
-            stages.entries.append(['res', mkflags('wgpu::ShaderStages', stage_term)])
-            return it.call('bind_group_layout_entry', [mkref(gb), mkref(stages)])
-        return go
+    def part_entries():
+        def mk(stage_term):
+            def go(it):
+                gb = h.value(ctx)
+                stages = BTreeV()
+                stages.entries.append(['res', mkflags('wgpu::ShaderStages', stage_term)])
+                return it.call('bind_group_layout_entry', [mkref(gb), mkref(stages)])
+            return go
 
-    T_ = h.D['TypeInner']
-    # (1) every resource type, stage mask fixed;  (2) every stage mask, on a sampler
-    res = [(r, 1) for r in ctx.explore('bind_group_layout_entry/any-resource', mk(h.stages),
-                                       assume=[h.assumption(), h.stages == 2], anchors=ANCHORS)]
-    res += [(r, 2) for r in ctx.explore('bind_group_layout_entry/any-stage-mask', mk(h.stages),
-                                        assume=[h.assumption(), h.tdisc == T_['Sampler']],
-                                        anchors=['bind_group_layout_entry', 'quote_shader_stages'])]
-    panics, kinds = {}, {}
-    known = [(k, KNOWN_PRED[k](h)) for k in KNOWN_PRED]
-    not_known = z3.And([z3.Not(p) for _, p in known]) if known else z3.BoolVal(True)
-    replay_budget = 60 if ctx.tier == 'quick' else 100000
-    seen = {}
+        T_ = h.D['TypeInner']
+        # (1) every resource type, stage mask fixed;  (2) every stage mask, on a sampler
+        res = [(r, 1) for r in ctx.explore('bind_group_layout_entry/any-resource', mk(h.stages),
+                                           assume=[h.assumption(), h.stages == 2], anchors=ANCHORS)]
+        res += [(r, 2) for r in ctx.explore('bind_group_layout_entry/any-stage-mask', mk(h.stages),
+                                            assume=[h.assumption(), h.tdisc == T_['Sampler']],
+                                            anchors=['bind_group_layout_entry', 'quote_shader_stages'])]
+        panics, kinds = {}, {}
+        known = [(k, KNOWN_PRED[k](h)) for k in KNOWN_PRED]
+        not_known = z3.And([z3.Not(p) for _, p in known]) if known else z3.BoolVal(True)
+        replay_budget = 60 if ctx.tier == 'quick' else 100000
+        seen = {}
 
-    def failing(m, rs):
-        return [n for n, c in rs if not z3.is_true(m.eval(c, model_completion=True))]
+        def failing(m, rs):
+            return [n for n, c in rs if not z3.is_true(m.eval(c, model_completion=True))]
 
-    for (pc, kind, out, _), part in res:
-        if kind == 'panic':
-            panics[out[:60]] = panics.get(out[:60], 0) + 1
-            # a refusal must not happen for a type the generator supports
-            m = ctx.check(pc, z3.Or(h.is_buffer(), h.tdisc == T_['Image'], h.tdisc == T_['Sampler']))
-            if m is not None:
-                src = wgsl_of(ctx, h, m)
-                k2, v2, _ = ctx.gen_tokens(src, {})
-                ctx.report('C02/panic-on-supported-type', f'generator panics ({out}) on {src.strip()}', {'wgsl': src}, k2 == 'panic')
-            continue
-        try:
-            d = decode_bgl_entry(out.toks)
-        except T.DecodeError as e:
-            m = ctx.witness(pc)
-            src = wgsl_of(ctx, h, m)
+        for (pc, kind, out, _), part in res:
+            if kind == 'panic':
+                panics[out[:60]] = panics.get(out[:60], 0) + 1
+                # a refusal must not happen for a type the generator supports
+                m = ctx.check(pc, z3.Or(h.is_buffer(), h.tdisc == T_['Image'], h.tdisc == T_['Sampler']))
+                if m is not None:
+                    src = wgsl_of(ctx, h, m)
+                    k2, v2, _ = ctx.gen_tokens(src, {})
+                    ctx.report('C02/panic-on-supported-type', f'generator panics ({out}) on {src.strip()}', {'wgsl': src}, k2 == 'panic')
+                continue
             try:
-                k2, toks2, _ = ctx.gen_tokens(src, {})
-                decode_bgl_entry(find_entry(toks2))
-                rep = False
-            except T.DecodeError:
-                rep = True
-            ctx.report('C02/malformed-entry', f'layout entry does not decode ({e}) for {src.strip()}', {'wgsl': src}, rep)
-            continue
-        kinds[d['ty']['kind']] = kinds.get(d['ty']['kind'], 0) + 1
-        rs = rules(h, d)
-        bad = z3.Or([z3.Not(c) for _, c in rs])
-        m = ctx.check(pc, z3.And(bad, not_known))
-        if m is not None:
-            for name in failing(m, rs):
-                key = f'C02/{name}/{d["ty"]["kind"]}'
-                seen[key] = seen.get(key, 0) + 1
-                if seen[key] > 1:
-                    continue
-                src, rep, detail = replay(ctx, h, m, name)
-                ctx.report(key, f'rule "{name}" fails for `{(src or "").strip()}`: entry {d["ty"]}', {'wgsl': src, 'options': {}}, rep, detail)
-        for key, pred in known:
-            m = ctx.check(pc, z3.And(bad, pred))
+                d = decode_bgl_entry(out.toks)
+            except T.DecodeError as e:
+                m = ctx.witness(pc)
+                src = wgsl_of(ctx, h, m)
+                try:
+                    k2, toks2, _ = ctx.gen_tokens(src, {})
+                    decode_bgl_entry(find_entry(toks2))
+                    rep = False
+                except T.DecodeError:
+                    rep = True
+                ctx.report('C02/malformed-entry', f'layout entry does not decode ({e}) for {src.strip()}', {'wgsl': src}, rep)
+                continue
+            kinds[d['ty']['kind']] = kinds.get(d['ty']['kind'], 0) + 1
+            rs = rules(h, d)
+            bad = z3.Or([z3.Not(c) for _, c in rs])
+            m = ctx.check(pc, z3.And(bad, not_known))
             if m is not None:
-                seen[key] = seen.get(key, 0) + 1
-                if seen[key] > 1:
-                    continue
-                names = failing(m, rs)
-                src, rep, detail = replay(ctx, h, m, names[0])
-                ctx.report(key, f'rule "{names[0]}" fails for `{(src or "").strip()}`', {'wgsl': src, 'options': {}}, rep, detail)
-        # translator validation on this path: witness -> WGSL -> real build must give the same entry
-        if replay_budget > 0 and part == 1:
-            replay_budget -= 1
-            m = ctx.witness(pc)
-            src = wgsl_of(ctx, h, m)
-            k2, toks2, _ = ctx.gen_tokens(src, {})
-            if k2 == 'ok':
-                d2 = decode_bgl_entry(find_entry(toks2))
-                mine = dict(d, visibility=0)
-                mine['binding'] = model_value(m, h.binding)
-                if d2 != dict(mine):
-                    raise Inconclusive(f'translator disagrees with the implementation on {src.strip()}: {d2} != {mine}')
-                ctx.replayed_ok += 1
-                ctx.sample({'wgsl': src.strip(), 'entry': d2})
-    # vacuity: the assertion is reachable (twin query with the property replaced by false)
-    okp = [r for (r, _) in res if r[1] == 'ok']
-    if not okp:
-        raise Inconclusive('no path reached the decoder')
-    ctx.vacuity_witness('some path reaches the assertion', okp[0][0])
-    ctx.extra['violations_by_rule'] = seen
+                for name in failing(m, rs):
+                    key = f'C02/{name}/{d["ty"]["kind"]}'
+                    seen[key] = seen.get(key, 0) + 1
+                    if seen[key] > 1:
+                        continue
+                    src, rep, detail = replay(ctx, h, m, name)
+                    ctx.report(key, f'rule "{name}" fails for `{(src or "").strip()}`: entry {d["ty"]}', {'wgsl': src, 'options': {}}, rep, detail)
+            for key, pred in known:
+                m = ctx.check(pc, z3.And(bad, pred))
+                if m is not None:
+                    seen[key] = seen.get(key, 0) + 1
+                    if seen[key] > 1:
+                        continue
+                    names = failing(m, rs)
+                    src, rep, detail = replay(ctx, h, m, names[0])
+                    ctx.report(key, f'rule "{names[0]}" fails for `{(src or "").strip()}`', {'wgsl': src, 'options': {}}, rep, detail)
+            # translator validation on this path: witness -> WGSL -> real build must give the same entry
+            if replay_budget > 0 and part == 1:
+                replay_budget -= 1
+                m = ctx.witness(pc)
+                src = wgsl_of(ctx, h, m)
+                k2, toks2, _ = ctx.gen_tokens(src, {})
+                if k2 == 'ok':
+                    d2 = decode_bgl_entry(find_entry(toks2))
+                    mine = dict(d, visibility=0)
+                    mine['binding'] = model_value(m, h.binding)
+                    if d2 != dict(mine):
+                        raise Inconclusive(f'translator disagrees with the implementation on {src.strip()}: {d2} != {mine}')
+                    ctx.replayed_ok += 1
+                    ctx.sample({'wgsl': src.strip(), 'entry': d2})
+        # vacuity: the assertion is reachable (twin query with the property replaced by false)
+        okp = [r for (r, _) in res if r[1] == 'ok']
+        if not okp:
+            raise Inconclusive('no path reached the decoder')
+        ctx.vacuity_witness('some path reaches the assertion', okp[0][0])
+        ctx.extra['violations_by_rule'] = seen
+        return kinds, panics, seen
+    r_ = ctx.section('layout entries', part_entries)
+    kinds, panics, seen = r_ if r_ else ({}, {}, {})
     # "visible to that stage": the stage analysis feeding the visibility field, on call sequences shared between entry points of
     # different stages (the full set of nesting contexts is C03's)
     from harness import c03 as C03
     vis_seen = {}
-    C03.sequences(ctx, 2, 2, vis_seen)
-    C03.end_to_end(ctx, vis_seen)
+    ctx.section('visibility: sequences', lambda: C03.sequences(ctx, 2, 2, vis_seen))
+    ctx.section('visibility: end to end', lambda: C03.end_to_end(ctx, vis_seen))
+    ctx.section('visibility: bindings declared out of index order', lambda: declared_out_of_order(ctx, vis_seen))
     ctx.extra['visibility_subcheck'] = vis_seen
     # "no two entries of one layout share a binding index" (wgpu create_bind_group_layout: conflicting binding): the grouping of
     # k = 3 variables with symbolic (@group, @binding) pairs, judged by C11's contract (Ok => every slot used once)
@@ -360,7 +424,7 @@ def run(ctx):
     # point uses the group - C04's templates and conditions, run here as well
     from harness import c04 as C04
     saved_bounds = dict(ctx.bounds)
-    C04.run(ctx)
+    ctx.section('pipeline layout order (C04)', lambda: C04.run(ctx))
     ctx.bounds = dict(saved_bounds, pipeline_layout_order='the templates of C04 (bounds: ' + str(ctx.bounds)[:300] + ')')
     ctx.extra['entry_kinds_per_path'] = kinds
     ctx.extra['generator_refusals'] = panics
